@@ -36,6 +36,31 @@ func TestVerif_C05_Trees(t *testing.T) {
 	m.Require("evaluations", int64(n))
 	m.Require("strict_nonempty", 100)
 	m.Require("nan_numbers", 100)
+	// deep chains: a value nested 7 .. 4000 levels (objects and ECMA arrays alternating, a sibling before and after the nested
+	// member at some levels): "generous depth bounds" means no depth is special
+	depths := []int{7, 31, 32, 33, 34, 40, 64, 65, 200, 1000, 4000}
+	m.Require("deep_chains_checked", int64(len(depths)))
+	for di, d := range depths {
+		leaf := &refamf0.Value{Kind: refamf0.Number, Num: float64(d)}
+		cur := leaf
+		for l := 0; l < d; l++ {
+			k := refamf0.Object
+			if l%3 == 1 {
+				k = refamf0.Ecma
+			}
+			v := &refamf0.Value{Kind: k}
+			if l%5 == 0 {
+				v.Props = append(v.Props, refamf0.Prop{Key: "before", Val: &refamf0.Value{Kind: refamf0.String, Str: "x"}})
+			}
+			v.Props = append(v.Props, refamf0.Prop{Key: "c", Val: cur})
+			if l%7 == 0 {
+				v.Props = append(v.Props, refamf0.Prop{Key: "after", Val: &refamf0.Value{Kind: refamf0.Boolean, Bool: true}})
+			}
+			cur = v
+		}
+		checkTree(m, cur, 10000000+di)
+		m.Count("deep_chains_checked", 1)
+	}
 	mon.Parallel(n, func(w, i int) {
 		r := m.Rand("tree", i)
 		o := refamf0.GenOpts{MaxDepth: r.Range(0, 6), MaxWidth: r.Range(1, 12), EmptyKeys: true, Strict: true, BigStrings: true}
@@ -201,6 +226,44 @@ func TestVerif_C05_Grammar(t *testing.T) {
 			data = append(data, second...)
 		}
 		checkGrammar(m, w, tr, data, first, tail, second, keyed, i)
+		// truncated encodings: whatever prefix the library accepts, the value it returns cannot be larger than the prefix
+		// ("consumes exactly its own bytes" — it cannot have consumed bytes that were not there)
+		for _, cut := range []int{first - 1, first - 2, first - 3, r.Intn(first + 1)} {
+			if cut <= 0 || cut >= first {
+				continue
+			}
+			pre := data[:cut]
+			m.Guard("amf0.grammar.prefix", pre, func() {
+				l, err := decodeLib(pre)
+				m.Case()
+				if err != nil {
+					m.Count("truncated_encodings_rejected", 1)
+					return
+				}
+				m.Count("truncated_encodings_accepted", 1)
+				if l.Size() > len(pre) {
+					m.Violationf("c05:size-exceeds-input:truncated", map[string]interface{}{"case": i, "input_hex": mon.Hex(pre)}, "a %d-byte prefix of an encoding decodes to a value with Size()=%d: it reports bytes it was never given", len(pre), l.Size())
+				} else if b2, err := l.MarshalBinary(); err != nil || len(b2) != l.Size() {
+					m.Violationf("c05:size-ne-marshal-len:truncated", map[string]interface{}{"case": i, "input_hex": mon.Hex(pre)}, "value decoded from a truncated encoding: Size()=%d, marshals to %d bytes (err %v)", l.Size(), len(b2), err)
+				}
+			})
+		}
+		// scalar receivers that already hold a value: decoding overwrites it
+		switch i % 3 {
+		case 0:
+			s := amf0.NewString("previous value")
+			want := r.Pick(0, 0, 1, 5)
+			enc := append([]byte{2, 0, byte(want)}, bytes.Repeat([]byte{'z'}, want)...)
+			if err := s.UnmarshalBinary(enc); err != nil || string(*s) != strings.Repeat("z", want) || s.Size() != len(enc) {
+				m.Violationf("c05:reused-scalar-receiver-keeps-old-value:string", map[string]interface{}{"case": i}, "a String holding a value, decoding %x: now %q, Size %d, err %v", enc, string(*s), s.Size(), err)
+			}
+		case 1:
+			n := amf0.NewNumber(42)
+			if err := n.UnmarshalBinary([]byte{0, 0, 0, 0, 0, 0, 0, 0, 0}); err != nil || float64(*n) != 0 {
+				m.Violationf("c05:reused-scalar-receiver-keeps-old-value:number", map[string]interface{}{"case": i}, "a Number holding 42, decoding 0: now %v, err %v", float64(*n), err)
+			}
+		}
+		m.Count("reused_scalar_receivers_checked", 1)
 	})
 }
 
